@@ -94,10 +94,15 @@ class EtherLL(LinkLayer):
 class Ether:
     """all attached stations hear each other unless `links` restricts it (set of frozenset({a,b}))"""
 
-    def __init__(self, links=None):
+    def __init__(self, links=None, order_rng=None):
         self.stations = {}
         self.queue = []
         self.links = links
+        # order_rng (a random.Random): asynchronous medium - every transmitted frame becomes one (receiver, frame)
+        # pair per station in range and the pending pairs are delivered one at a time in an order drawn from
+        # order_rng (any order: across receivers, across senders, between two frames of one sender).  None: FIFO.
+        self.order_rng = order_rng
+        self.pairs = []
         self.log = []      # (sender, frame) in transmission order
         self.max_frames = 10000
         self.down = set()   # stations temporarily out of range (neither hear nor are heard)
@@ -116,6 +121,8 @@ class Ether:
 
     def pump(self):
         """deliver queued frames FIFO until the medium is silent"""
+        if self.order_rng is not None:
+            return self.pump_async()
         n = 0
         while self.queue:
             sender, frame = self.queue.pop(0)
@@ -127,4 +134,24 @@ class Ether:
                 if self.hears(sender, name):
                     with rs.quiet():
                         stn.gn.gn_data_indicate(frame)
+        return n
+
+    def pump_async(self):
+        """deliver the pending (receiver, frame) pairs in random order until the medium is silent"""
+        n = 0
+        while self.queue or self.pairs:
+            while self.queue:
+                sender, frame = self.queue.pop(0)
+                self.log.append((sender, frame))
+                for name in self.stations:
+                    if self.hears(sender, name):
+                        self.pairs.append((name, sender, frame))
+            if not self.pairs:
+                break
+            name, _sender, frame = self.pairs.pop(self.order_rng.randrange(len(self.pairs)))
+            n += 1
+            if n > self.max_frames * max(1, len(self.stations)):
+                raise RuntimeError("ether: flood does not terminate")
+            with rs.quiet():
+                self.stations[name].gn.gn_data_indicate(frame)
         return n
